@@ -1,3 +1,3 @@
--- Root of the `VlsModel` library: models, lemmas and property theorems.
+-- Root of the `VlsModel` library.  Property theorem modules (VlsModel/Props/Cxx.lean) are built
+-- explicitly by bin/setup and bin/check; this root only pulls in the shared primitives.
 import VlsModel.Prim.U64
-import VlsModel.Model.Velocity
